@@ -402,7 +402,8 @@ Fixpoint start_ops (cfg : config) (s : state) (ops : list cop) : state :=
       let g := gh s in
       let s0 := if ended (mt s) && (0 <? i) then set_gh (mkG (g_out g) (g_fin g) (g_ck g) true) s else s in
       let s1 := set_cl (mkCl (c_pc c) r e e false i o i o (c_use c) (c_fp c) (c_res c)) s0 in
-      if ended (mt s) && is_continue e then    (* stage_wrong: the session is reset, the next call must re-initialise *)
+      if alldone (mt s) && negb (ended (mt s)) then stop_ops s    (* no open frame: ZSTD_compressStream2 always initialises first; not an API behaviour *)
+      else if ended (mt s) && is_continue e then    (* stage_wrong: the session is reset, the next call must re-initialise *)
         match r with
         | OpCS _ _ _ :: _ => stop_ops (record_res RErr s1)
         | _ => start_ops cfg (record_res RErr s1) r
